@@ -408,6 +408,87 @@ Section Dispatch.
     | RcvName n => new_typed n (load_type n) args                            (* :444-455 *)
     | RcvOther => OErr ENoRespond                                            (* :448 *)
     end.
+
+  (* ---- looking at a built function: the read-only accessors --------------------------------------------------
+     What is reachable from a resolved function and decides later calls: the dispatch builders it was resolved from
+     (functionBuilder.dispatchers; createDispatch has written the resolved types back into them, function.go:190-193)
+     and the table of dispatchers (goFunction.dispatchers; each holds its Callable signature, whose parameter tuple
+     holds the size and the slice of slot types - the SAME slice the builder holds, function.go:205).  The accessors
+     hand out these very objects (Dispatchers :333 the slice, Signature :101 the Callable, Types tupletype.go the
+     slice of slot types) or build new ones from them (Parameters :109/:117 -> parametersFromSignature :65,
+     ParameterNames callabletype.go:271, String/ToString/PType/Generic/Get ...).  None of them assigns to anything
+     reachable from the function: the state handed on is the state received. *)
+  Record fstate := mkF { f_builders : list bstate; f_table : list dispatch }.
+
+  Inductive accessor :=
+  | ADispatchers              (* goFunction.Dispatchers :333 (and Name :337, String :354, PType :363, Equals :341) *)
+  | AParameters (i : nat)     (* Lambda.Parameters :109 / :117 of dispatcher i *)
+  | ASignature (i : nat)      (* lambda.Signature :101, PType :97; ParametersType, ReturnType, Parameters, Get of the Callable *)
+  | ANames (i : nat)          (* CallableType.ParameterNames callabletype.go:271 *)
+  | ATypes (i : nat)          (* TupleType.Types (the slice itself), Parameters, Get(`types`), At *)
+  | ASize (i : nat)           (* TupleType.Size *)
+  | ABlockType (i : nat)      (* CallableType.BlockType callabletype.go:111 *)
+  | AText (i : nat)           (* String / ToString / Accept / Generic / Equals / IsAssignable of dispatcher, signature, tuple;
+                                 px.DescribeSignatures *)
+  | AResolve.                 (* functionBuilder.Resolve once more (function.go:148): a new table from the same builders *)
+
+  Inductive aobs :=
+  | OCount (n : nat)                      (* how many dispatchers / parameter names *)
+  | OParams (ps : list (ty * bool))       (* px.Parameter i: its type and CapturesRest (the names are "1".."n") *)
+  | OTypes (ts : list ty)
+  | OSize (mn mx : Z)
+  | OBlockT (b : option (bool * bty))
+  | OText                                 (* a text or a derived object; its content is not compared *)
+  | OResolved (ok : bool)
+  | OIndexFault.                          (* Dispatchers()[i] with i out of range (the caller's index) *)
+
+  (* parametersFromSignature function.go:65-80: one parameter per name (= per slot type), its type is slot i,
+     the last one captures the rest when the tuple's maximum exceeds the number of slots *)
+  Fixpoint params_from (ts : list ty) (i : nat) (capture : option nat) : list (ty * bool) :=
+    match ts with
+    | [] => []
+    | t :: r => (t, match capture with Some c => Nat.eqb i c | None => false end) :: params_from r (S i) capture   (* :77 *)
+    end.
+
+  Definition parameters_of_sig (s : sig) : list (ty * bool) :=
+    let count := length (s_types s) in                                                   (* :66-67 *)
+    let capture := if Z.of_nat count <? s_max s then Some (count - 1)%nat else None in   (* :70-73 *)
+    params_from (s_types s) 0 capture.                                                   (* :74-78, paramTypes[i], i < count *)
+
+  Definition with_disp (st : fstate) (i : nat) (f : dispatch -> aobs) : fstate * aobs :=
+    match nth_error (f_table st) i with
+    | Some d => (st, f d)
+    | None => (st, OIndexFault)
+    end.
+
+  Definition access (st : fstate) (a : accessor) : fstate * aobs :=
+    match a with
+    | ADispatchers => (st, OCount (length (f_table st)))
+    | AParameters i => with_disp st i (fun d => OParams (parameters_of_sig (d_sig d)))
+    | ASignature i => with_disp st i (fun _ => OText)
+    | ANames i => with_disp st i (fun d => OCount (length (s_types (d_sig d))))
+    | ATypes i => with_disp st i (fun d => OTypes (s_types (d_sig d)))
+    | ASize i => with_disp st i (fun d => OSize (s_min (d_sig d)) (s_max (d_sig d)))
+    | ABlockType i => with_disp st i (fun d => OBlockT (s_block (d_sig d)))
+    | AText i => with_disp st i (fun _ => OText)
+    | AResolve =>                                     (* Resolve :148-178: createDispatch of every builder, as they are now *)
+        match create_all (f_builders st) 0 with
+        | inr ds => (mkF (f_builders st) ds, OResolved true)       (* the caller goes on with the new function *)
+        | inl _ => (st, OResolved false)
+        end
+    end.
+
+  Fixpoint run_accessors (st : fstate) (accs : list accessor) : fstate * list aobs :=
+    match accs with
+    | [] => (st, [])
+    | a :: r => let '(st1, o) := access st a in
+                let '(st2, os) := run_accessors st1 r in
+                (st2, o :: os)
+    end.
+
+  (* the state of a function that has just been resolved *)
+  Definition resolved_state (ss : list bstate) : option fstate :=
+    match create_all ss 0 with inr ds => Some (mkF ss ds) | inl _ => None end.
 End Dispatch.
 
 Arguments mkB {ty bty}.
@@ -483,6 +564,23 @@ Arguments OPanic {val}.
 Arguments RcvType {ty} t.
 Arguments RcvName {ty} n.
 Arguments RcvOther {ty}.
+Arguments mkF {ty bty}.
+Arguments f_builders {ty bty}.
+Arguments f_table {ty bty}.
+Arguments OCount {ty bty} n.
+Arguments OParams {ty bty} ps.
+Arguments OTypes {ty bty} ts.
+Arguments OSize {ty bty} mn mx.
+Arguments OBlockT {ty bty} b.
+Arguments OText {ty bty}.
+Arguments OResolved {ty bty} ok.
+Arguments OIndexFault {ty bty}.
+Arguments params_from {ty}.
+Arguments parameters_of_sig {ty bty}.
+Arguments with_disp {ty bty}.
+Arguments access {ty bty}.
+Arguments run_accessors {ty bty}.
+Arguments resolved_state {ty bty}.
 
 (* ================================================================================================
    The concrete fragment used by the correspondence run: parameter / receiver types and values.
